@@ -386,7 +386,8 @@ func c19Wires(n *vNet, nd *vNode, pups []*vPuppet, evs []*pb.TraceEvent) (*c19Ac
 	a := &c19Acct{wireMsgs: map[peer.ID]map[string]bool{}, dropIDs: map[peer.ID]map[string]bool{}, forwarded: map[string]string{}}
 	var fromRaw []c19SD
 	lastClosed := map[peer.ID]int{}
-	lastNew := map[peer.ID]int{}
+	open := map[peer.ID]bool{} // a stream is open at this point of the trace
+	openAt := map[int]bool{}   // trace index of a SEND_RPC -> its peer had an open stream then
 	for i, e := range evs {
 		switch e.GetType() {
 		case pb.TraceEvent_SEND_RPC:
@@ -396,8 +397,12 @@ func c19Wires(n *vNet, nd *vNode, pups []*vPuppet, evs []*pb.TraceEvent) (*c19Ac
 			a.fromEv = append(a.fromEv, c19SD{"drop", peer.ID(e.GetDropRPC().GetSendTo()), c19SigMeta(e.GetDropRPC().GetMeta()), c19MetaIDs(e.GetDropRPC().GetMeta()), i})
 		case pb.TraceEvent_ON_CLOSED_OUTBOUND_STREAM:
 			lastClosed[peer.ID(e.GetOnClosedOutboundStream().GetPeerID())] = i
+			delete(open, peer.ID(e.GetOnClosedOutboundStream().GetPeerID()))
 		case pb.TraceEvent_ON_NEW_OUTBOUND_STREAM:
-			lastNew[peer.ID(e.GetOnNewOutboundStream().GetPeerID())] = i
+			open[peer.ID(e.GetOnNewOutboundStream().GetPeerID())] = true
+		}
+		if e.GetType() == pb.TraceEvent_SEND_RPC {
+			openAt[i] = open[peer.ID(e.GetSendRPC().GetSendTo())]
 		}
 	}
 	for _, e := range nd.tr.Events() {
@@ -426,9 +431,10 @@ func c19Wires(n *vNet, nd *vNode, pups []*vPuppet, evs []*pb.TraceEvent) (*c19Ac
 			sendSigs[x.to][x.sig]++
 			// the queue accepts RPCs while the stream is still being opened (and loses them silently if that
 			// fails): a push is certain to arrive only if the stream exists in the end and never closed after it
+			// (the trace does not identify queues, so pushes made while no stream was open are not judged at all: the
+			// queue they went into may have been dropped after a failed attempt and replaced on a later reconnect)
 			c, closed := lastClosed[x.to]
-			o, opened := lastNew[x.to]
-			if opened && (!closed || (c < x.at && c < o)) {
+			if openAt[x.at] && (!closed || c < x.at) {
 				liveSigs[x.to][x.sig]++
 			}
 		} else {
